@@ -30,6 +30,7 @@ StatementParser::StatementParser(RecursiveParser *parser) : parser_(parser) {}
  * トークンの種類に応じて適切な解析メソッドを呼び出します
  */
 ASTNode *StatementParser::parseStatement() {
+    parser_->checkNesting();
     // export修飾子のチェック（最初にチェック）
     bool isExported = false;
     bool isDefaultExport = false;
